@@ -94,6 +94,7 @@ type ReadSpec struct {
 	After     int      `json:"after,omitempty"`
 	Max       int      `json:"max,omitempty"`
 	NoColor   bool     `json:"no_color"`
+	LogLevel  string   `json:"log_level,omitempty"` // client log level ("" = default info)
 }
 
 // MakeReadClient builds the ClientProc for a ReadSpec.
@@ -102,6 +103,9 @@ func (w *World) MakeReadClient(spec ReadSpec, keyPath string) *ClientProc {
 	a.Plain = spec.Plain
 	a.Quiet = spec.Quiet
 	a.NoColor = spec.NoColor
+	if spec.LogLevel != "" {
+		a.LogLevel = spec.LogLevel
+	}
 	a.RegexStr = spec.Regex
 	a.RegexInvert = spec.Invert
 	a.LContext = lcontext.LContext{BeforeContext: spec.Before, AfterContext: spec.After, MaxCount: spec.Max}
